@@ -600,6 +600,8 @@ def rule_e7(chk, prog, em, tool, seen):
             bad = None
             for (v, r, _p) in _e7_walk(prog, f, br, succ, aliases, zero, neg, specific_handled=True):
                 if (v.is_const and v.is_int and v.sval == 0) or id(v) in zero:
+                    if aliases and _recovered_by_retry(prog, f, c, _p):
+                        continue
                     bad = (v, r)
                     break
             if bad is None:
@@ -614,6 +616,38 @@ def rule_e7(chk, prog, em, tool, seen):
                                   "the constant 0" if v.is_const else "a result that the guards in front of the failure "
                                   "pin to 0 (the status variable was not set)"))
     return n
+
+
+def _recovered_by_retry(prog, f, failed, path):
+    """after the allocation failed the path makes another allocation of the same kind and goes on only because *that* one
+    succeeded (its result is tested against NULL on the path and the non-NULL side is taken): the first failure was
+    survived, not lost -- whether what is recorded about the buffer then fits what was got is K6-capagree's business"""
+    nm = norm_callee(failed.callee)
+    for k, b in enumerate(path):
+        for i in b.insts:
+            if i.op == "call" and i is not failed and norm_callee(i.callee) == nm:
+                # a later block of the path tests something that resolves to i against NULL and takes the non-NULL edge
+                for j in range(k, len(path) - 1):
+                    t = path[j].term
+                    if t.op != "br" or len(t.x["succ"]) != 2:
+                        continue
+                    cnd = t.ops[0]
+                    if not (cnd.is_inst and cnd.op == "icmp" and cnd.pred in ("eq", "ne") and cnd.ops[1].is_const and cnd.ops[1].is_null):
+                        continue
+                    x = strip_casts(cnd.ops[0])
+                    hops = 0
+                    while x.is_inst and x.op == "phi" and x.bb in path and hops < 4:
+                        kk = path.index(x.bb)
+                        nv = [val for val, p_ in zip(x.ops, x.x["inc"]) if kk > 0 and p_ is path[kk - 1]]
+                        if not nv:
+                            break
+                        x = strip_casts(nv[0])
+                        hops += 1
+                    if x is i:
+                        nonnull = t.x["succ"][1] if cnd.pred == "eq" else t.x["succ"][0]
+                        if path[j + 1] is nonnull:
+                            return True
+    return False
 
 
 E9_EXCEPTIONS = {}
@@ -1357,6 +1391,10 @@ def run(chk):
     chk.floor("K8-handover", 4)
     chk.floor("T1-eof", 1)
     chk.floor("T2-short", 5)
+    # an allocation failure that is "survived" by asking for less must leave the container describing what it got
+    from ..capagree import run_capagree
+    run_capagree(chk, load_program("gensquashfs"))
+    chk.floor("K6-capagree", 3)
     controls(chk)
 
 
